@@ -15,6 +15,7 @@ import (
 	distrtypes "github.com/cosmos/cosmos-sdk/x/distribution/types"
 	govtypes "github.com/cosmos/cosmos-sdk/x/gov/types"
 	govv1 "github.com/cosmos/cosmos-sdk/x/gov/types/v1"
+	govv1beta1 "github.com/cosmos/cosmos-sdk/x/gov/types/v1beta1"
 	stakingtypes "github.com/cosmos/cosmos-sdk/x/staking/types"
 
 	fxtypes "github.com/functionx/fx-core/v8/types"
@@ -374,8 +375,16 @@ func (r *c15Run) deposit() {
 			amt = chain.FX(100)
 		}
 	}
-	res := fix.GovDeposit(r.c, u, p.id, sdk.NewCoins(sdk.NewCoin(fxtypes.DefaultDenom, amt)))
-	r.logf("deposit %s on %d by %s -> %s", amt, p.id, u.Label, short(res.ErrString()))
+	var res chain.Result
+	legacy := r.rng.IntN(3) == 0
+	if legacy {
+		// the same deposit sent as the older message type, which is still routed
+		res = r.c.Msg(govv1beta1.NewMsgDeposit(u.Acc(), p.id, sdk.NewCoins(sdk.NewCoin(fxtypes.DefaultDenom, amt))))
+		r.res.Count("legacy_deposits", 1)
+	} else {
+		res = fix.GovDeposit(r.c, u, p.id, sdk.NewCoins(sdk.NewCoin(fxtypes.DefaultDenom, amt)))
+	}
+	r.logf("deposit %s on %d by %s (legacy message: %v) -> %s", amt, p.id, u.Label, legacy, short(res.ErrString()))
 	if !res.OK() {
 		return
 	}
